@@ -53,6 +53,7 @@ type ptOpts struct {
 	bufShare   float64 // share of runs on a bare ParserBuffer
 	families   []string
 	allowLarge bool
+	saLarge    bool // GSAP/OSAP may use the large geometry (linear oracles only)
 	tweak      func(r *RNG, p *ParserSpec)
 	classW     []int
 }
@@ -63,8 +64,17 @@ func genParserTrace(r *RNG, tier string, o ptOpts) *Trace {
 	if o.classW != nil {
 		class = []string{"tiny", "small", "medium", "large"}[r.Weighted(o.classW)]
 	}
+	saLarge := false
 	if (typ == "GSAP" || typ == "OSAP") && class == "large" {
-		class = "medium"
+		// the suffix-array parsers get the large geometry (33-100 KiB buffers:
+		// the suffix sorter's block merges, >64Ki positions, multi-word position
+		// sets) only where the oracle is linear (o.saLarge), and then with
+		// inputs of at most 1.5 buffers; everywhere else they stay medium
+		if o.saLarge && r.Chance(0.5) {
+			saLarge = true
+		} else {
+			class = "medium"
+		}
 	}
 	spec := genParserSpec(r, typ, class)
 	if o.tweak != nil {
@@ -80,8 +90,11 @@ func genParserTrace(r *RNG, tier string, o ptOpts) *Trace {
 		fam = f // experiments only (never set by bin/check): force one input family
 	}
 	n := inputLenFor(r, bc.BufferSize, class)
-	if (typ == "GSAP" || typ == "OSAP") && n > 6000 {
+	if (typ == "GSAP" || typ == "OSAP") && n > 6000 && !saLarge {
 		n = 6000
+	}
+	if saLarge {
+		n = bc.BufferSize/2 + r.Intn(bc.BufferSize+1)
 	}
 	t := &Trace{World: "parser", P: &spec, Input: genInput(r, n, fam)}
 	t.Note = fmt.Sprintf("class=%s family=%s", class, fam)
@@ -168,7 +181,7 @@ func init() {
 			if r.Chance(0.06) {
 				pg.trickle = 0.85
 			}
-			return genParserTrace(r, tier, ptOpts{types: parserTypes, pg: pg, wrapShare: 0.2, allowLarge: true})
+			return genParserTrace(r, tier, ptOpts{types: parserTypes, pg: pg, wrapShare: 0.2, allowLarge: true, saLarge: true})
 		},
 		Exec: execParser("C01"),
 		NonTriv: func(res *Result) bool {
